@@ -41,6 +41,8 @@
              when the peer's own stream closed first the extension keeps p's state (k fails);
      X04-F5  MeshPeers / emitGossip let a peer through that merely set requestsPartial in a subscription without
              having advertised the extension (g fails: partial RPC to a peer without the extension).
+   (A third, harmless one is only recorded by the trace specification: X04-F7, the test extension's callback runs for
+   every RPC of a peer that advertised the test extension, whether or not the RPC carries a TestExtension message.)
    NDev: seeded defects (non-vacuity).  GenSpec emits event histories that bin/lib/props/x04.py turns into
    scenarios of the real node; PartialNodeTrace.tla judges the recorded steps.                                *)
 EXTENDS Naturals, Sequences, FiniteSets, TLC, Json
